@@ -59,6 +59,18 @@ impl vstd::std_specs::ops::SubSpecImpl<Instant> for Instant {
         dur(if self.ns@ >= rhs.ns@ { self.ns@ - rhs.ns@ } else { 0 })
     }
 }
+impl Instant {
+    // std: "Returns the amount of time elapsed from another instant to this one, or None if that instant is later than this one"
+    #[verifier::external_body]
+    pub fn checked_duration_since(&self, earlier: Instant) -> (r: Option<Duration>)
+        ensures r == (if self.ns@ >= earlier.ns@ { Some(dur(self.ns@ - earlier.ns@)) } else { None::<Duration> }),
+    { unimplemented!() }
+    // std: "... or zero duration if that instant is later than this one"
+    #[verifier::external_body]
+    pub fn saturating_duration_since(&self, earlier: Instant) -> (r: Duration)
+        ensures r == dur(if self.ns@ >= earlier.ns@ { self.ns@ - earlier.ns@ } else { 0 }),
+    { unimplemented!() }
+}
 impl core::ops::Sub<Instant> for Instant {
     type Output = Duration;
     #[verifier::external_body]
